@@ -145,7 +145,7 @@ class Vector(AutoSerialize):
         fields: List[str],
         units: List[str],
         name: str,
-        metadata: dict = {},
+        metadata: dict | None = None,
         _token: object | None = None,
     ) -> None:
         if _token is not self._token:
@@ -156,7 +156,7 @@ class Vector(AutoSerialize):
         self.units = units
         self.name = name
         self._data = nested_list(self.shape, fill=None)
-        self._metadata = metadata
+        self._metadata = {} if metadata is None else metadata
 
     @classmethod
     def from_shape(
